@@ -752,7 +752,7 @@ fn exhaustive_small() -> &'static Vec<(usize, Vec<Word>)> {
     })
 }
 
-const DEFAULT_BUDGET: u64 = 50_000_000;
+const DEFAULT_BUDGET: u64 = 20_000_000;
 
 fn gen_case(batch: &str, index: u64, seed: u64) -> Case {
     let mut r = Xo::fork(seed, "workload");
@@ -1033,7 +1033,7 @@ impl Property for C10 {
     fn assumptions(&self) -> Vec<String> {
         vec![
             "the only nondeterminism SVC::fit consumes is rand::thread_rng() inside Optimizer::permutate, served by the simulator through the patched rand 0.8.8 copy; the kernel cache is a keyed HashMap lookup and its retain() predicate is order independent".into(),
-            "the Counting<K> wrapper delegates to the real kernels; kernel evaluations and the cfg(smartcore_verif) tick in the SMO loops are the logical clock; the budget (5e7 kernel evaluations or SMO ticks for SVC, 1e8 SMO iterations for SVR) is >= 100x the largest count observed on the unchanged tree (reported under measured_maxima)".into(),
+            "the Counting<K> wrapper delegates to the real kernels; kernel evaluations and the cfg(smartcore_verif) tick in the SMO loops are the logical clock; the budget (2e7 kernel evaluations or SMO ticks for SVC, 1e8 SMO iterations for SVR) is >= 100x the largest count observed on the unchanged tree (reported under measured_maxima)".into(),
             "closed-form kernels and the expansion b + sum w_i K(sv_i, x) are computed independently in the harness from the model's serde image".into(),
             "tolerances: box 1e-12*C, |sum w| <= 1e-9*C*n, expansion 1e-9 relative (f32: 1e-5, 1e-3, 2e-3); SVR optimality slack = tol + 1e-9*scale (the stopping rule guarantees tol/2)".into(),
             "SVR workload restricted to the region where SMO converges quickly (n <= 40; RBF with C <= 100 (C = 100 only for tol >= 1e-3); linear and polynomial degree <= 2 with C <= 1, or C = 10 at tol = 1e-2); slow convergence elsewhere is not judged".into(),
